@@ -45,9 +45,12 @@ def main():
     ran.append({"cmd": "go build ./... && go test ./... (with change)", "failing": fails})
     os.rename(f"{wt}/{demo}.aside", f"{wt}/{demo}")
     # 4. demo passes without the change
-    run("git stash", cwd=wt)
+    # (no git stash: the stash is shared between worktrees)
+    rcr, orr = run(f"git apply -R {out}/patch.diff", cwd=wt)
+    assert rcr == 0, "cannot reverse patch: " + orr
     rc3, o3 = run(f"go test -vet=off -count=1 -run 'TestSeedDemo$' {pkg}", cwd=wt)
-    run("git stash pop", cwd=wt)
+    rca, oa = run(f"git apply {out}/patch.diff", cwd=wt)
+    assert rca == 0, "cannot re-apply patch: " + oa
     ran.append({"cmd": f"go test -run TestSeedDemo {pkg} (without change)", "exit": rc3})
     valid = rc1 != 0 and rc3 == 0 and all("TestIsWritable" in f for f in fails) and "build failed" not in o2
     # 5. run the check against /repo with the patch applied
